@@ -209,6 +209,10 @@ pub fn snow_from_rm_oracle<const PL: usize, const DL: usize>(hs: &Hs, name: &str
 /// Ideal AEAD + free toy hash/DH, endpoint A ids (cipher objects 0,1,2) / endpoint B ids (3,4,5); both ends
 /// share the ideal functionality's log.
 pub fn snow_from_rm_ideal_a<const PL: usize, const DL: usize>(hs: &Hs, name: &str) -> HandshakeState {
+    snow_from_rm_ideal_a_hl::<8, PL, DL>(hs, name)
+}
+/// same with a toy hash of HL bytes (HL = 64 exercises the "truncate to 32 bytes" branches of MixKey / Split)
+pub fn snow_from_rm_ideal_a_hl<const HL: usize, const PL: usize, const DL: usize>(hs: &Hs, name: &str) -> HandshakeState {
     unsafe {
         CKEY[0] = hs.sym.k;
     }
@@ -220,7 +224,7 @@ pub fn snow_from_rm_ideal_a<const PL: usize, const DL: usize>(hs: &Hs, name: &st
         Objs {
             rng: Box::new(SRng),
             cipher: Box::new(ICipher::<0>),
-            hasher: Box::new(SHash::<8, 0>),
+            hasher: Box::new(SHash::<HL, 0>),
             cipher_i: Box::new(ICipher::<1>),
             cipher_r: Box::new(ICipher::<2>),
             s: Box::new(SDh::<PL, DL, 0>),
